@@ -23,6 +23,7 @@ PROPS = {
     "cwt": ["C18", "C12", "C11", "C19", "C15", "C07"],
     "context": ["C18", "C11", "C02", "C15", "C19", "C07"],
     "util": ["C08", "C09", "C10", "C18", "C15", "C11"],
+    "iana": ["C17", "C08", "C10", "C18", "C14"],
 }
 
 
